@@ -365,6 +365,11 @@ func (c *CEnv) binary(e *CE, hint *Value) Value {
 	if isCmp {
 		h = nil
 	}
+	if op == "==" || op == "!=" {
+		// operands may be formulas (b == (forall ...)): both polarities
+		c.mixed++
+		defer func() { c.mixed-- }()
+	}
 	if isLitCE(e.Args[0]) && !isLitCE(e.Args[1]) {
 		b = c.evalH(e.Args[1], h)
 		a = c.evalH(e.Args[0], &b)
@@ -724,6 +729,22 @@ func (c *CEnv) quant(e *CE) Value {
 	}
 	for _, v := range e.Vars {
 		name := fmt.Sprintf("%s!q%d", v, tag)
+		// a struct type: one bound symbol per leaf
+		if st := lookupNamedType(c.pkg, e.Typ); st != nil && kindOf(st) == KStruct {
+			var ls []*Term
+			for li, lf := range m.flatten(st) {
+				ln := fmt.Sprintf("%s.%d", name, li)
+				ls = append(ls, Sym(ln, lf.Sort))
+				vars = append(vars, [2]string{ln, lf.Sort})
+			}
+			sv, _ := m.fromLeaves(st, ls)
+			c.x.vc.sideStack = append(c.x.vc.sideStack, nil)
+			c.x.assumeTypeInv(c.heap(), sv)
+			guards = append(guards, c.x.vc.sideStack[len(c.x.vc.sideStack)-1]...)
+			c.x.vc.sideStack = c.x.vc.sideStack[:len(c.x.vc.sideStack)-1]
+			nb[v] = sv
+			continue
+		}
 		sort := m.specSort(e.Typ)
 		s := Sym(name, sort)
 		t, _ := basicByName(e.Typ)
@@ -825,6 +846,13 @@ func (c *CEnv) callExpr(e *CE, hint *Value) Value {
 		a := c.evalH(e.Args[0], nil)
 		c.x.vc.needByteLen()
 		return c.mathInt(App("bytelen", SInt, a.X))
+	case "unix", "nanosecond":
+		// Unix seconds / nanosecond part of a time.Time value
+		a := c.eval(e.Args[0])
+		if name == "unix" {
+			return Value{K: KScalar, T: types.Typ[types.Int64], X: c.x.timeUnix(c.heap(), a)}
+		}
+		return c.mathInt(c.x.timeNsec(c.heap(), a))
 	case "abs":
 		a := c.evalH(e.Args[0], nil)
 		return c.mathInt(iAbs(a.X))
@@ -854,6 +882,16 @@ func (c *CEnv) callExpr(e *CE, hint *Value) Value {
 			sort = s
 		}
 		return Value{K: KScalar, X: c.x.errcode(a.X, sort)}
+	case "has":
+		// has(m, k): key k is present in map m
+		mv := c.eval(e.Args[0])
+		if mv.K != KMap || mv.T == nil {
+			c.fail("has() needs a map: %s", e)
+		}
+		mi := c.x.mapInfoOf(mv.T)
+		z := c.x.zeroValue(mi.kt)
+		k := c.evalH(e.Args[1], &z)
+		return Value{K: KScalar, X: c.x.mapHas(c.heap(), mi, mv.X, k)}
 	case "fresh":
 		// the object was allocated during the call / function
 		a := c.eval(e.Args[0])
